@@ -431,6 +431,13 @@ def main(rec):
                 sp2["group"] = ("partial", name, which)
                 sp2["toggle_only"] = True
                 extra_specs.append(sp2)
+    # the same in one Python process after other libraries were wrapped (shroud.main.main() / create_wrapper called
+    # repeatedly, docs/installing.rst): the lists name exactly what THIS run wrote
+    hist_src = [sp_ for sp_ in specs if sp_["name"].startswith(("ovrfix_", "nson_", "nsoff_"))]
+    for hi, sp_ in enumerate(hist_src[:: max(1, len(hist_src) // 12)]):
+        before = [hist_src[(hi * 7 + 3) % len(hist_src)], hist_src[(hi * 5 + 1) % len(hist_src)]]
+        hs = dict(sp_, name=sp_["name"] + "+after-others", seq=[dict(b_) for b_ in before] + [dict(sp_)], last_run_events=True)
+        specs.append(hs)
     specs.extend(extra_specs)
     res = pool.run_cases("vf.shroudrun", specs, timeout=300)
     groups = {}
